@@ -1,6 +1,6 @@
 (** C07 — recreation commutes with changes of units and acts locally.
     Statements only.  Proofs: Proofs/RfaEquivProofs.v, on the closed forms of Model/RfaSpec.v that the
-    strategies are proved to compute (C05_link_*); piecewise-constant directly on the model. *)
+    strategies are proved to compute (C05_link_...); piecewise-constant directly on the model. *)
 From TW Require Import Model.RfaSpec Proofs.RfaEquivProofs.
 Open Scope Qc_scope.
 
